@@ -12,6 +12,30 @@ COMMON_TRUST = [
     "target: x86-64 little endian, usize = 64 bit",
 ]
 
+import os as _os
+import re as _re
+
+_KDIR = _os.path.join(_os.path.dirname(_os.path.dirname(_os.path.abspath(__file__))), "kani", "src")
+
+
+def hs(module, include=None, exclude=None):
+    """harness names declared in kani/src/<module>.rs, filtered by regex"""
+    try:
+        src = open(_os.path.join(_KDIR, module + ".rs")).read()
+    except OSError:
+        return []
+    i = src.find("crate::harnesses!")
+    names = _re.findall(r"fn\s+(%s_[A-Za-z0-9_]+)\s*\(\)" % _re.escape(module.rstrip("p")), src[i:]) if i >= 0 else []
+    out = []
+    for n in names:
+        if include and not _re.search(include, n):
+            continue
+        if exclude and _re.search(exclude, n):
+            continue
+        out.append("%s::%s" % (module, n))
+    return out
+
+
 W_Q = ["w0", "w1", "w8", "w60", "w64", "w65", "w128", "w192"]
 W_T = W_Q + ["w250", "w256"]
 
@@ -84,5 +108,42 @@ PROPS = {
         explanation="the property's sentences about products are postconditions of the Uint methods over val(); every function between them and the u128 multiply is under contract",
         trusted=COMMON_TRUST,
         not_decided=["inv_ring above 16 bits", "iterator Product beyond 2 elements", "Mul/MulAssign operator shapes (forwarding only)"],
+    ),
+    "C07": dict(
+        level="other",
+        level_text="Kani proves, per width and for ALL values of the source type / all canonical Uint values, the exact Ok/Err classification, the payloads, and the wrapping/saturating forms of "
+                   "every integer conversion entry point (13 primitive types in both directions, Uint-to-Uint for 9 width pairs, the limb-slice constructors for every length 0..LIMBS+2); "
+                   "loops are closed by LIMBS, so each harness is complete for its width",
+        level_note="per-width only (10 widths), no all-widths proof: TryFrom<u64>/<u128> are not yet under a Verus contract; limb slices longer than LIMBS+2 not covered; "
+                   "should_panic harnesses prove that the panic is reachable and nothing else fails (plus an unreachable end-of-harness cover), not a universally quantified 'always panics'",
+        technique="Kani contract harnesses (pre/postconditions on the compiled crate), complete per width; native replay of counterexamples",
+        units=[],
+        kani=dict(
+            features=None,
+            quick=hs("c07", r"_w(0|1|60|64|65|128)$|_uint_|_must_panic$"),
+            thorough=hs("c07"),
+            bounds="widths 0,1,8,60,64,65,100,128,129,192; slices of length 0..LIMBS+2",
+        ),
+        explanation="harness-level contracts: assume(type invariant), call, assert(postcondition from the property statement) against a u128 / limb-loop oracle",
+        trusted=COMMON_TRUST,
+        not_decided=["widths outside the grid", "limb slices longer than LIMBS+2"],
+    ),
+    "C08": dict(
+        level="other",
+        level_text="Kani proves, per width, that every byte encoder emits exactly the base-256 digits in the stated order and length (fixed, vector, borrowed, trimmed, copy-into-buffer incl. frame), "
+                   "that try_from_le/be_slice accept exactly the byte strings of length <= BYTES denoting a value < 2^BITS (all strings up to BYTES+8 bytes, never panicking), and the round trips",
+        level_note="per-width only (12 widths incl. 60, 63 and 72 where BYTES%8 and BITS%64 disagree); the code is raw-pointer slices, outside Verus; byte strings longer than BYTES+8 take the loop-free length exit",
+        technique="Kani contract harnesses on the compiled crate (bit-precise for the unsafe pointer casts), complete per width",
+        units=[],
+        kani=dict(
+            features=None,
+            quick=hs("c08", r"_w(0|1|7|60|63|64|65|72)$|_must_panic$", r"trim_be_vec_w(63|64|65|72)"),
+            thorough=hs("c08"),
+            timeout_thorough=4000,
+            bounds="widths 0,1,7,8,60,63,64,65,72,100,128,129; byte strings 0..BYTES+8; buffers 0..BYTES+3",
+        ),
+        explanation="harness-level contracts against digit oracles computed from the limbs",
+        trusted=COMMON_TRUST,
+        not_decided=["widths outside the grid"],
     ),
 }
